@@ -1,0 +1,38 @@
+//go:build verif
+
+// Contracts for channel keys and key allocation (read as text by /verif's govc; comment-only).
+
+package channel
+
+//@ # ---- key packing: 12 bits of leaseholder, 20 bits of local key (bit-vector semantics)
+//@ pure func NewKey(nodeKey node.Key, localKey LocalKey) Key
+//@ pure func (c Key) Leaseholder() node.Key
+//@ pure func (c Key) LocalKey() LocalKey
+//@ pure func (c Key) Free() bool
+//@ pure func (c Key) Lease() node.Key
+
+//@ lemma keyPackingRoundTrip(n node.Key, l LocalKey)
+//@   arith bv
+//@   requires n < 4096 && l < 1048576
+//@   ensures NewKey(n, l).Leaseholder() == n
+//@   ensures NewKey(n, l).LocalKey() == l
+//@   ensures NewKey(n, l).Lease() == n
+//@   ensures NewKey(n, l).Free() == (n == 4095)
+//@ # distinct (leaseholder, local key) pairs give distinct keys: uniqueness cluster-wide
+//@ lemma keyPackingInjective(n1 node.Key, l1 LocalKey, n2 node.Key, l2 LocalKey)
+//@   arith bv
+//@   requires n1 < 4096 && l1 < 1048576 && n2 < 4096 && l2 < 1048576
+//@   ensures (NewKey(n1, l1) == NewKey(n2, l2)) == (n1 == n2 && l1 == l2)
+//@ # every key decomposes
+//@ lemma keyUnpackRepack(k Key)
+//@   arith bv
+//@   ensures NewKey(k.Leaseholder(), k.LocalKey()) == k
+//@   ensures k.Leaseholder() < 4096 && k.LocalKey() < 1048576
+
+//@ # ---- the per-node counter of local keys never spills into the leaseholder bits
+//@ func (c *counter) add(ctx context.Context, delta LocalKey) (next LocalKey, err error)
+//@   requires c.wrap != nil && kv.SpecCounterVal[c.wrap] >= 0 && kv.SpecCounterVal[c.wrap] <= 1048575
+//@   ensures  old(kv.SpecCounterVal[c.wrap]) + int64(delta) > 1048575 ==> err != nil && next == 0 && kv.SpecCounterVal[c.wrap] == old(kv.SpecCounterVal[c.wrap])
+//@   ensures  old(kv.SpecCounterVal[c.wrap]) + int64(delta) <= 1048575 ==> kv.SpecCounterVal[c.wrap] == old(kv.SpecCounterVal[c.wrap]) + int64(delta) && int64(next) == kv.SpecCounterVal[c.wrap]
+//@   ensures  kv.SpecCounterVal[c.wrap] >= old(kv.SpecCounterVal[c.wrap]) && kv.SpecCounterVal[c.wrap] <= 1048575
+//@   modifies kv.SpecCounterVal
